@@ -1236,77 +1236,6 @@ func c13r12(rc *core.RC) {
 	}())
 }
 
-// ---- C13.R13 the key comparator takes the recorded keys whole ----
-
-// The four interpreters record a map key as the bytes they wrote for it, and what follows the key text differs
-// between them (`":`, `": `, colour codes). Mapslice.Less is shared: comparing the recorded keys whole orders by the
-// common prefix (quote, key text, quote), the same in every interpreter; trimming a fixed number of bytes is right
-// for at most one of them and makes the same map come out in different orders with and without indentation.
-func c13r13(rc *core.RC) {
-	p := rc.P
-	fd := p.Func("encoder", "Mapslice.Less")
-	if fd == nil || fd.Body == nil {
-		rc.Unknown("encoder.Mapslice.Less", token.NoPos, "comparator not found")
-		return
-	}
-	info := p.Info(fd)
-	fn := p.FuncName(fd)
-	rc.Touch(fn)
-	// single-definition locals
-	defs := map[types.Object]ast.Expr{}
-	ast.Inspect(fd.Body, func(x ast.Node) bool {
-		if as, ok := x.(*ast.AssignStmt); ok && len(as.Lhs) == len(as.Rhs) {
-			for i, l := range as.Lhs {
-				if id, ok := l.(*ast.Ident); ok {
-					if o := core.ObjOf(info, id); o != nil {
-						if _, dup := defs[o]; dup {
-							defs[o] = nil
-						} else {
-							defs[o] = as.Rhs[i]
-						}
-					}
-				}
-			}
-		}
-		return true
-	})
-	var resolve func(e ast.Expr, d int) ast.Expr
-	resolve = func(e ast.Expr, d int) ast.Expr {
-		e = core.Unparen(e)
-		if id, ok := e.(*ast.Ident); ok && d < 4 {
-			if r := defs[core.ObjOf(info, id)]; r != nil {
-				return resolve(r, d+1)
-			}
-		}
-		return e
-	}
-	n := 0
-	ast.Inspect(fd.Body, func(x ast.Node) bool {
-		call, ok := x.(*ast.CallExpr)
-		if !ok || core.CalleeName(info, call) != "bytes.Compare" || len(call.Args) != 2 {
-			return true
-		}
-		for i, a := range call.Args {
-			n++
-			key := fmt.Sprintf("%s/operand#%d whole-recorded-key", fn, i+1)
-			r := resolve(a, 0)
-			switch v := r.(type) {
-			case *ast.SelectorExpr:
-				_, isIdx := core.Unparen(v.X).(*ast.IndexExpr)
-				rc.Check(v.Sel.Name == "Key" && isIdx, key, a.Pos(), "the operand is the recorded key of an item (%s)", core.Src(p.Fset, r))
-			case *ast.SliceExpr:
-				rc.Bad(key, a.Pos(), "the comparator re-slices the recorded key (%s): what follows the key text differs between the interpreters, so a fixed trim orders the same map differently with and without indentation or colour", core.Src(p.Fset, r))
-			default:
-				rc.Unknown(key, a.Pos(), "operand %s is neither a recorded key nor a slice of one", core.Src(p.Fset, r))
-			}
-		}
-		return true
-	})
-	if n != 2 {
-		rc.Unknown(fn+"/comparison", fd.Pos(), "expected one bytes.Compare of two keys, found %d operands", n)
-	}
-}
-
 // ---- C13.R14 a flag is cleared by masking with its complement ----
 
 // Option and opcode flag words are bit sets. Clearing one flag is `w &= ^F` or `w &^= F`. `w &= F` (no complement)
